@@ -828,16 +828,35 @@ func (tr *Tr) builtin(fr *frame, b *ssa.Builtin, cc *ssa.CallCommon, args []Val,
 	case "print", "println":
 		return Val{Ty: rt}
 	case "min", "max":
-		a, bb := args[0], args[1]
-		op := "bvsle"
-		if isUnsigned(a.Ty) {
-			op = "bvule"
+		isMax := b.Name() == "max"
+		acc := args[0].T
+		for _, nx := range args[1:] {
+			switch {
+			case isFloat(rt):
+				// Go: a NaN argument makes the result NaN; -0.0 is smaller than 0.0
+				w := intWidth(rt)
+				x, y := toFP(acc, w), toFP(nx.T, w)
+				lt, tie := app("fp.lt", x, y), app("fp.isNegative", x)
+				if isMax {
+					lt, tie = app("fp.gt", x, y), app("fp.isPositive", x)
+				}
+				acc = ite(app("fp.isNaN", x), acc, ite(app("fp.isNaN", y), nx.T,
+					ite(lt, acc, ite(app("fp.eq", x, y), ite(tie, acc, nx.T), nx.T))))
+			case isInt(rt):
+				op := "bvsle"
+				if isUnsigned(rt) {
+					op = "bvule"
+				}
+				if isMax {
+					acc = ite(app(op, acc, nx.T), nx.T, acc)
+				} else {
+					acc = ite(app(op, acc, nx.T), acc, nx.T)
+				}
+			default:
+				vfail("builtin %s on %v", b.Name(), rt)
+			}
 		}
-		if b.Name() == "max" {
-			a, bb = bb, a
-			return def(rt, ite(app(op, a.T, bb.T), bb.T, a.T))
-		}
-		return def(rt, ite(app(op, a.T, bb.T), a.T, bb.T))
+		return def(rt, acc)
 	case "close":
 		// closing a nil or an already closed channel panics: ghost state CHCLOSED (per channel reference);
 		// it is written only here, so a channel received from the environment is not known to be open
